@@ -4,19 +4,38 @@ From Coq Require Import String List ZArith Bool Arith.
 From Anko Require Import Base.Assoc Env.EnvModel Interp.Ast Interp.Value Interp.ToX Interp.Equal Interp.Model.
 Import ListNotations.
 
-Lemma defers_keep_rv orc cancel_at fuel : forall ds err0 s,
+(* the loop hands back the value the result had when it began - a value, not the place it was read
+   from: whatever the deferred calls write, they cannot alter it *)
+Lemma defers_keep_rv_detached orc cancel_at fuel : forall ds err0 s,
   match exec orc cancel_at fuel (CDefers ds err0) s with
-  | Ok s' | Err _ s' => r_rv s' = r_rv s
+  | Ok s' | Err _ s' => match ds with [] => s' = s | _ :: _ => r_rv s' = detach (r_st s) (r_rv s) end
   | Abort _ => True
   end.
 Proof.
   induction fuel as [|f IH]; intros ds err0 s; cbn [exec]; [exact I|].
   cbn [exec_body]. unfold run_defers. destruct ds as [|d r].
   - destruct err0; reflexivity.
-  - cbv zeta. destruct (exec orc cancel_at f (CApply (d_fn d) (d_args d) (d_slice d)) s) as [s1|e s1|a]; [| |exact I].
-    + specialize (IH r err0 (set_rv s1 (r_rv s))). destruct (exec orc cancel_at f (CDefers r err0) _); auto.
-    + match goal with |- match exec _ _ _ (CDefers r ?e1) ?st with _ => _ end =>
-        specialize (IH r e1 st); destruct (exec orc cancel_at f (CDefers r e1) st); auto end.
+  - cbv zeta.
+    assert (Hnext : forall e1 s1,
+      match exec orc cancel_at f (CDefers r e1) (set_rv s1 (detach (r_st s) (r_rv s))) with
+      | Ok s' | Err _ s' => r_rv s' = detach (r_st s) (r_rv s)
+      | Abort _ => True
+      end).
+    { intros e1 s1. specialize (IH r e1 (set_rv s1 (detach (r_st s) (r_rv s)))).
+      destruct (exec orc cancel_at f (CDefers r e1) _) as [s'|e' s'|a]; [| |exact I];
+        (destruct r; [rewrite IH; reflexivity | rewrite IH; reflexivity]). }
+    destruct (exec orc cancel_at f (CApply (d_fn d) (d_args d) (d_slice d)) s) as [s1|e s1|a]; [| |exact I]; apply Hnext.
+Qed.
+
+Lemma defers_keep_rv orc cancel_at fuel : forall ds err0 s,
+  match exec orc cancel_at fuel (CDefers ds err0) s with
+  | Ok s' | Err _ s' => deref (r_st s') (r_rv s') = deref (r_st s) (r_rv s)
+  | Abort _ => True
+  end.
+Proof.
+  intros ds err0 s. pose proof (defers_keep_rv_detached orc cancel_at fuel ds err0 s) as H.
+  destruct (exec orc cancel_at fuel (CDefers ds err0) s) as [s'|e s'|a]; [| |exact I];
+    (destruct ds; [subst s'; reflexivity | rewrite H; reflexivity]).
 Qed.
 
 (* when the body already failed with a real error, that error is what the invocation ends with *)
